@@ -2,6 +2,49 @@
 
 package receiver
 
+import (
+	"context"
+	"sync"
+)
+
+// verifPhases records where each downloader goroutine is (verification harness only).
+var verifPhases sync.Map // *Downloader -> string
+
+func verifPhase(d *Downloader, p string) { verifPhases.Store(d, p) }
+
+// VerifBackoff, when set, is called before a downloader sleeps after a failed load; it may
+// block until the harness lets the downloader retry.
+var VerifBackoff func(ctx context.Context, instance string)
+
+func verifBackoff(ctx context.Context, d *Downloader) {
+	verifPhase(d, "backoff")
+	if VerifBackoff != nil {
+		VerifBackoff(ctx, d.instance)
+	}
+}
+
+// VerifDownloaders returns, per instance, the phase of its downloader and whether it has
+// processed the newest snapshot seen for its instance (racy read of Downloader.last).
+func (r *Receiver) VerifDownloaders() map[string][2]string {
+	r.mu.Lock()
+	defer r.mu.Unlock()
+	out := map[string][2]string{}
+	for inst, d := range r.downloadersByInstance {
+		ph, _ := verifPhases.Load(d)
+		p, _ := ph.(string)
+		up := "behind"
+		ni, ok := r.lastSeenByInstance[inst]
+		if inst == r.ownInstance {
+			ni, ok = r.lastNotifiedByInstance[inst]
+		}
+		if !ok || d.last.FullName == ni.FullName {
+			up = "uptodate"
+		}
+		out[inst] = [2]string{p, up}
+	}
+	return out
+}
+
 // VerifFree returns the free download and decompress tokens and their limits
 // (verification harness only).
 func (r *Receiver) VerifFree() (dlFree, dlLimit, dcFree, dcLimit int) {
